@@ -83,14 +83,14 @@ def _feat(v):
 @predicate("F10")
 def _f10(v):
     d = v["detail"]
-    return (v["kind"] == "fake_raised:ValueError" and "float_grid_empty" in _feat(v)
+    return (v["kind"].endswith("fake_raised:ValueError") and "float_grid_empty" in _feat(v)
             and "empty range" in d["exc"]["msg"] and (d["exc"]["where"] or "").endswith("random_int"))
 
 
 @predicate("F12")
 def _f12(v):
     d = v["detail"]
-    return (v["kind"] == "fake_raised:IndexError" and "empty_alphabet" in _feat(v)
+    return (v["kind"].endswith("fake_raised:IndexError") and "empty_alphabet" in _feat(v)
             and "empty sequence" in d["exc"]["msg"] and "generation/_random.py" in (d["exc"]["where"] or ""))
 
 
